@@ -38,6 +38,8 @@ LASTPIECE = z3.Function("py_lastpiece", StrS, StrS, StrS)
 WC = z3.Function("spec_write_continue_output", StrS, IntS, StrS, StrS)
 JOINPRE = z3.Function("py_joinpre", z3.ArraySort(IntS, StrS), IntS, StrS)
 TOINT = z3.Function("py_int_of_str", StrS, IntS)
+TOINTB = z3.Function("py_int_of_str_base", StrS, IntS, IntS)
+INTOKB = z3.Function("py_int_parses_base", StrS, IntS, BoolS)
 INTOK = z3.Function("py_int_parses", StrS, BoolS)
 
 
@@ -408,7 +410,7 @@ class MethodsMixin(object):
                 return VInt(len(v.items))
             if isinstance(v, VRef):
                 c = st.heap[v.oid]
-                if isinstance(c, HList):
+                if isinstance(c, (HList, HRecList)):
                     return VInt(c.n)
                 if isinstance(c, HCList):
                     return VInt(len(c.items))
@@ -429,6 +431,12 @@ class MethodsMixin(object):
 
         def f_int(ex, st, args, kw, node):
             v = args[0]
+            if len(args) == 2:
+                base = self.conc(args[1])
+                if not isinstance(v, VStr) or base is None:
+                    raise OutOfSubset("int(x, base)", node)
+                self.safety(st, "ValueError", INTOKB(v.e, base), node, "int(s, %d) of a string that may not be a number" % base)
+                return VInt(TOINTB(v.e, base))
             if isinstance(v, VInt):
                 return v
             if isinstance(v, VBool):
@@ -704,7 +712,21 @@ class MethodsMixin(object):
         def sf_validfmt(node, st):
             return VBool(VALIDFMT(self.ev(node.args[0], st).e, self.ev(node.args[1], st).e))
 
-        return dict(validfmt=sf_validfmt, wfmt=sf_wfmt, same_except=sf_same_except, isnone=sf_isnone, isbool=sf_isbool, firstfield=sf_firstfield, lastpiece=sf_lastpiece, isint=sf_isint, isstr=sf_isstr, asstr=sf_asstr, WC=sf_wc, code=_sf_code(self), all=sf_all, old=sf_old, implies=sf_implies, iff=sf_iff, allws=sf_allws,
+        def sf_evalv(node, st):
+            from contracts.ast_enum import EVAL
+            v = self.ev(node.args[0], st)
+            e = self.to_py(v)
+            return VInt(z3.If(PyVal.is_pint(e), PyVal.pi(e), EVAL(PyVal.ps(e))))
+
+        def sf_eval_plus(node, st):
+            # A2 instance: EVAL(e + "+" + str(k)) == EVAL(e) + k   for k >= 0
+            from contracts.ast_enum import EVAL
+            e = self.want_str(self.ev(node.args[0], st), st, node)
+            k = self.ev(node.args[1], st).e
+            st.assume(z3.Implies(k >= 0, EVAL(z3.Concat(e, z3.StringVal("+"), z3.IntToStr(k))) == EVAL(e) + k))
+            return VNone()
+
+        return dict(evalv=sf_evalv, eval_plus=sf_eval_plus, validfmt=sf_validfmt, wfmt=sf_wfmt, same_except=sf_same_except, isnone=sf_isnone, isbool=sf_isbool, firstfield=sf_firstfield, lastpiece=sf_lastpiece, isint=sf_isint, isstr=sf_isstr, asstr=sf_asstr, WC=sf_wc, code=_sf_code(self), all=sf_all, old=sf_old, implies=sf_implies, iff=sf_iff, allws=sf_allws,
                     lstrip=sf_lstrip, rstrip=sf_rstrip)
 
 
